@@ -17,9 +17,12 @@
  *   suspend                            tickit_term_pause(tt) then tickit_term_resume(tt): the program is stopped and continued.
  *                                      (One operation, so that no request ever falls between the two halves: the documented
  *                                      protocol allows nothing but resume after pause.)
+ *   print <word>                       tickit_term_printf(tt, "%s", <word>): text is drawn between pen requests (it is formatted in
+ *                                      the terminal's scratch buffer, which the xterm driver's chpen uses for its SGR string too)
  *
  * Observations:  x: `b=<hex of the bytes written> pen=<cached pen>`      g: `n=<chpen calls> d=<delta> f=<final> pen=<cached pen>`
  *   suspend      x: `p=<hex of the bytes written by pause> b=<hex of the bytes written by resume> pen=<cached pen>`
+ *   print        x: `b=<hex of the bytes written> pen=<cached pen>`   g: `t=<hex of the text handed to the driver's print> pen=`
  *                g: `pause=<driver pause calls> resume=<driver resume calls> order=<p|r|c per driver call> n=<chpen calls> d= f= pen=`
  */
 #define HCOMMON_MAIN
@@ -120,9 +123,15 @@ struct GridDriver {
   int npause, nresume;
   char order[16]; int norder;
   char delta[512], final[512];
+  unsigned char text[256]; size_t ntext;
 };
 
-static bool gd_true3(TickitTermDriver *d, const char *s, size_t n) { (void)d; (void)s; (void)n; return true; }
+static bool gd_print(TickitTermDriver *d, const char *s, size_t n)
+{
+  struct GridDriver *gd = (struct GridDriver *)d;
+  for(size_t i = 0; i < n && gd->ntext < sizeof gd->text; i++) gd->text[gd->ntext++] = (unsigned char)s[i];
+  return true;
+}
 static bool gd_goto(TickitTermDriver *d, int l, int c) { (void)d; (void)l; (void)c; return true; }
 static bool gd_scroll(TickitTermDriver *d, const TickitRect *r, int a, int b) { (void)d; (void)r; (void)a; (void)b; return false; }
 static bool gd_erasech(TickitTermDriver *d, int n, TickitMaybeBool m) { (void)d; (void)n; (void)m; return true; }
@@ -160,7 +169,7 @@ static void gd_resume(TickitTermDriver *d)
 
 static TickitTermDriverVTable gd_vtable = {
   .destroy = gd_destroy, .pause = gd_pause, .resume = gd_resume,
-  .print = gd_true3, .goto_abs = gd_goto, .move_rel = gd_goto, .scrollrect = gd_scroll, .erasech = gd_erasech,
+  .print = gd_print, .goto_abs = gd_goto, .move_rel = gd_goto, .scrollrect = gd_scroll, .erasech = gd_erasech,
   .clear = gd_clear, .chpen = gd_chpen, .getctl_int = gd_getctl, .setctl_int = gd_setctl_int, .setctl_str = gd_setctl_str,
 };
 
@@ -267,6 +276,14 @@ static void engine_op(int argc, char **argv)
     return;
   }
   if((mode == 'x' || mode == 'g') && argc == 1 && strcmp(argv[0], "suspend") == 0) { do_suspend(); return; }
+  if((mode == 'x' || mode == 'g') && argc == 2 && strcmp(argv[0], "print") == 0) {
+    if(mode == 'g') gd->ntext = 0;
+    tickit_term_printf(tt, "%s", argv[1]);
+    if(mode == 'x') obs_out();
+    else { obs("t="); obs_hex(gd->text, gd->ntext); }
+    obs_cached();
+    return;
+  }
   if((mode != 'x' && mode != 'g') || argc != 2) { obs("bad-op"); return; }
   int set;
   if(strcmp(argv[0], "setpen") == 0) set = 1;
